@@ -542,12 +542,130 @@ def stateful_sched_cases(tier, rng, dist, encs=('u', 'w'), fam_filter=None):
     return out
 
 
+# The two streams multiplied: a stateful history or schedule whose operands come from the boundary-value classes
+# (lengths and counts around powers of two, every byte value, multi-byte characters, every prefix spelling).
+CAP_PREFIXES = [('(reserve i300)',), ('(push %s)' % hx(b'q' * 300), '(pop)'), ('(clear)', None)]
+
+
+def boundary_operands(enc):
+    """single names drawn from the boundary classes: lengths around powers of two (with and without extensions),
+       every byte value inside a name, dot-leading and dot-trailing names, multi-byte characters at both ends"""
+    sep = b'\\' if enc == 'w' else b'/'
+    out = list(boundary_names())
+    for v in range(1, 256):
+        c = bytes([v])
+        if c in (b'/', b'\\'):
+            continue
+        out.append(b'nm' + c + b'x.e')
+        out.append(c + b'tail')
+    out += [b'.hidden', b'.profile.d', b'..x', b'name.', b'v1..old', b'v1..', b'a.b.', b'.', b'..']
+    for ch in ('\u00e9', '\u012f', '\u20ac', '\U0001F33A'):
+        e = ch.encode()
+        out += [e + b'uro.txt', b'caf' + e + b'.txt', b'a' * 7 + e, e * 8]
+    seen, res = set(), []
+    for x in out:
+        if x not in seen:
+            seen.add(x); res.append(x)
+    return res
+
+
+def product_hist_cases(tier, rng, dist, focus, encs=('u', 'w'), fam_filter=None):
+    out = []
+    k = 0
+    for enc in encs:
+        win = enc == 'w'
+        sep = b'\\' if win else b'/'
+        fams = [f for f in ALLFAMS[enc] if not fam_filter or fam_filter(f)]
+        names = boundary_operands(enc)
+        bases = ([b'/srv/data', b'srv', b'/srv///data', b'/srv/./data', b'a/b/'] if not win else
+                 [b'C:\\srv\\data', b'C:', b'\\\\?\\C:\\data\\logs', b'//?/C:/out', b'\\\\.\\C:', b'\\\\s\\sh\\d', b'//?/UNC/srv/share/a/b', b'srv\\\\data'])
+        arg_ops = [o for o in focus if o in ('push', 'pushc', 'sfn', 'sext', 'join', 'wfn', 'wext', 'clonefrom')]
+        noarg_ops = [o for o in focus if o in ('pop', 'norm')]
+
+        def emit(init, h):
+            nonlocal k
+            blob = init + b''.join(bytes.fromhex(x) for x in re.findall(r'x([0-9a-f]*)', ' '.join(h)))
+            fam = fams[k % len(fams)]
+            k += 1
+            if '8' in fam and not is_utf8(blob):
+                plain = [f for f in fams if '8' not in f]
+                if not plain:
+                    return
+                fam = plain[k % len(plain)]
+            out.append('hist.%s\t%s\t%s' % (fam, hx(init), vlist(h)))
+
+        # (1) the operation under test with a boundary operand, on a buffer an earlier operation left with room
+        for o in arg_ops:
+            for n in names:
+                if o in ('sext', 'wext') and (b'/' in n or (win and b'\\' in n)):
+                    continue
+                for base in bases[:: (2 if tier == 'quick' and len(arg_ops) > 2 else 1)]:
+                    pre = CAP_PREFIXES[k % 2]
+                    emit(base, list(pre) + ['(%s %s)' % (o, hx(n))])
+                    k += 1
+        # (2) a boundary name already in the buffer (as its last component, with and without trailing bytes), then room, then the operation
+        tails = [b'', sep, sep + b'.']
+        reps = {'push': b'nm', 'pushc': b'nm', 'sfn': b'new.md', 'sext': b'rs', 'join': b'q', 'wfn': b'g.h', 'wext': b'rs', 'clonefrom': b'a'}
+        for n in names:
+            for tl in tails[:: (1 if tier != 'quick' or len(focus) <= 4 else 3)]:
+                init = bases[0] + sep + n + tl
+                for o in arg_ops + noarg_ops:
+                    last = '(%s)' % o if o in noarg_ops else '(%s %s)' % (o, hx(reps[o]))
+                    emit(init, ['(reserve i300)', last])
+                    if o in ('sext', 'sfn'):
+                        emit(init, ['(%s %s)' % (o, hx(b'backup' if o == 'sext' else b'longer-name.bak')), last])
+    hist(dist.setdefault('stream', {}), 'product-histories')
+    return out
+
+
+def product_sched_cases(tier, rng, dist, encs=('u', 'w'), fam_filter=None):
+    """the boundary paths under the schedules that mix the two ends: k front steps then back steps, a back step
+       between front steps; every family in turn"""
+    out = []
+    k = 0
+    for enc in encs:
+        win = enc == 'w'
+        sep = b'\\' if win else b'/'
+        fams = [f for f in ALLFAMS[enc] if not fam_filter or fam_filter(f)]
+        paths = [x for x in boundary_paths(win) if len(x) <= 700][:: (5 if tier == 'quick' else 1)]
+        heads = [b'a' + sep + b'b' + sep, b'projects' + sep + b'site' + sep] + ([b'C:' + sep + b'd' + sep, b'\\\\?\\C:\\logs\\.\\'] if win else [b'/home/user/'])
+        for n in boundary_operands(enc):
+            for hd in heads[:: (2 if tier == 'quick' else 1)]:
+                paths.append(hd + n + sep + b'build')
+                paths.append(hd + n)
+        # dot and separator groups behind a name (the shapes the front and back trimming loops branch on)
+        for g in (b'.', b'..'):
+            for a_ in range(1, 4):
+                for b_ in range(1, 4):
+                    paths.append(b'a' + sep + b'b' + sep * a_ + g + sep * b_ + b'.' + sep + b'c' + sep + b'd')
+                    paths.append(b'usr' + sep + b'lib' + sep + g + sep * a_ + b'.' + sep * b_ + b'x86' + sep + b'cc')
+        for s_ in paths:
+            n = seg_count(enc, s_) + 2
+            scs = [bytes([0] * j + [1] * (n + 1)) for j in (1, 2, 3)] + [bytes([1] + [0] * (n + 1)), bytes([0, 1, 0] + [1] * n), bytes([0, 1] + [0] * n)]
+            if n > 40:
+                scs = scs[:2]
+            for sc in scs:
+                fam = fams[k % len(fams)]
+                k += 1
+                if '8' in fam and not is_utf8(s_):
+                    plain = [f for f in fams if '8' not in f]
+                    if not plain:
+                        continue
+                    fam = plain[k % len(plain)]
+                out.append(case('c03.' + fam, s_, sc))
+    hist(dist.setdefault('stream', {}), 'product-schedules')
+    return out
+
+
 def with_state(g, focus, encs=('u', 'w'), sched=False, fam_filter=None):
     def h(tier, rng):
         cases, dist = g(tier, rng)
         cases = cases + stateful_hist_cases(tier, rng, dist, focus, encs=encs, fam_filter=fam_filter)
+        if focus:
+            cases = cases + product_hist_cases(tier, rng, dist, focus, encs=encs, fam_filter=fam_filter)
         if sched:
             cases = cases + stateful_sched_cases(tier, rng, dist, encs=encs, fam_filter=fam_filter)
+            cases = cases + product_sched_cases(tier, rng, dist, encs=encs, fam_filter=fam_filter)
         return cases, dist
     return h
 
@@ -885,7 +1003,11 @@ def with_cons(g, encs=('u', 'w'), same=False):
 
 GEN_NOTE = ('bounded-exhaustive strings over the bytes the parsers branch on (Unix {/ . a b NUL 0xFF}, Windows {\\ / . : ? a C} '
             'and 45 prefix seeds x suffixes over {\\ / . a}), structured random paths, a malformed stream, and UTF-8 inputs with 2-, 3- '
-            'and 4-byte characters; the byte family always, the UTF-8 / runtime-typed families on a share of the cases')
+            'and 4-byte characters; the byte family always, the UTF-8 / runtime-typed families on a share of the cases; a boundary-value stream '
+            '(lengths and counts around powers of two, every byte value in every structural position, every drive letter, reserved names, '
+            'separator runs); a stateful stream (every operation under test after every one and every two operations of the whole history '
+            'alphabet -- all mutating methods of the owned buffers -- on shaped initial buffers over every family in turn, and front/back '
+            'schedules with a clone after every step on shaped inputs); a self-consistency operation over the whole public surface')
 
 def P(gen, level_text, level_note, rule=None, **kw):
     d = {'gen': gen, 'level': 'proof', 'level_text': level_text, 'level_note': level_note,
